@@ -20,7 +20,7 @@ ASSUME = [
 
 INV = {
     "C01": "Trace_mux_C01.cfg", "C02": "Trace_mux_C02.cfg", "C03": "Trace_mux_C03.cfg",
-    "C04": "Trace_mux_C04.cfg", "C05": "Trace_mux_C05.cfg", "C18": "Trace_mux_C18.cfg",
+    "C04": "Trace_mux_C04.cfg", "C05": "Trace_mux_C05.cfg", "C18": "Trace_mux_C18.cfg", "C19": "Trace_mux_C19.cfg", "C16": "Trace_mux_C16.cfg",
 }
 
 
@@ -65,6 +65,11 @@ def script_sets(pid, tier, rnd):
         return [("longd", muxgen.long_rotations(rnd, 9 if q else 36, 300 if q else 3000, disk=True), ["-probe", "-noemit"]),
                 ("longr", muxgen.long_rotations(rnd, 9 if q else 36, 200 if q else 2000, disk=False), ["-probe", "-noemit"]),
                 ("size", muxgen.size_limit(rnd, 60 if q else 600), [])]
+    if pid == "C16":
+        return [("cfgs", muxgen.track_lists(rnd, 150 if q else 1500), ["-mv", "-noemit"]),
+                ("gen", muxgen.general(rnd, 60 if q else 600, (40, 120)), ["-mv", "-noemit"])]
+    if pid == "C19":
+        return [("grid", muxgen.c19_grid(rnd, 160 if q else 2400), ["-noemit"])]
     raise vlib.Inconclusive("no script set for " + pid)
 
 
